@@ -124,6 +124,7 @@ pub assume_specification<K, V, S, A: std::alloc::Allocator, F: FnMut(&K, &mut V)
 pub type RouteRef<T> = Arc<Route<T>>;
 pub uninterp spec fn rid<T>(r: Route<T>) -> Seq<char>;
 pub uninterp spec fn rscheme<T>(r: Route<T>) -> Option<Seq<char>>;
+pub open spec fn rid_of<T>(x: RouteRef<T>) -> Seq<char> { rid(*x) }
 pub open spec fn rscheme_of<T>(x: RouteRef<T>) -> Option<Seq<char>> { rscheme(*x) }
 pub open spec fn opt_chars(o: Option<&str>) -> Option<Seq<char>> { match o { Some(s) => Some(s@), None => None } }
 impl<T> Route<T> {
@@ -1731,6 +1732,310 @@ impl<T> DateTimeMatcher<T> {
     //@| ensures r == (self.cnt() == 0),
 }
 //@@ unrename PathAndQueryMatcher
+
+// ================================================================ path-and-query layer (the leaf: stores the routes themselves)
+pub enum PathKey { Static(Seq<char>), Dynamic(Seq<char>) }
+pub uninterp spec fn rpath<T>(r: Route<T>) -> PathKey;
+pub open spec fn rpath_of<T>(x: RouteRef<T>) -> PathKey { rpath(*x) }
+pub open spec fn path_key(o: &StaticOrDynamic) -> PathKey {
+    match o { StaticOrDynamic::Static(s) => PathKey::Static(s@), StaticOrDynamic::Dynamic(m) => PathKey::Dynamic(m.regex@) }
+}
+impl<T> Route<T> {
+    #[verifier::external_body] pub fn path_and_query(&self) -> (r: &StaticOrDynamic) ensures path_key(r) == rpath(*self) { unimplemented!() }
+}
+// SHIM of the regex tree storing (pattern, id) -> value (unit `tree` verifies the real one against its content laws). ASSUMED contracts.
+#[verifier::external_body] #[verifier::accept_recursive_types(V)] pub struct RegexTreeMap<V> { h: std::marker::PhantomData<V> }
+impl<V> RegexTreeMap<V> {
+    pub uninterp spec fn tmap2(&self) -> Map<(Seq<char>, Seq<char>), V>;
+    #[verifier::external_body]
+    pub fn new(ignore_case: bool) -> (r: Self) ensures r.tmap2() == Map::<(Seq<char>, Seq<char>), V>::empty() { unimplemented!() }
+    #[verifier::external_body]
+    pub fn insert(&mut self, regex: &str, id: &str, item: V) ensures final(self).tmap2() == old(self).tmap2().insert((regex@, id@), item) { unimplemented!() }
+    // tree unit, rem_law: exactly one entry stored under that id (if any) disappears and is returned
+    #[verifier::external_body]
+    pub fn remove(&mut self, id: &str) -> (r: Option<V>)
+        ensures match r {
+            Some(v) => exists|p: Seq<char>| #[trigger] old(self).tmap2().contains_key((p, id@)) && old(self).tmap2()[(p, id@)] == v && final(self).tmap2() == old(self).tmap2().remove((p, id@)),
+            None => final(self).tmap2() == old(self).tmap2() && forall|p: Seq<char>| !#[trigger] old(self).tmap2().contains_key((p, id@)),
+        },
+    { unimplemented!() }
+    #[verifier::external_body]
+    pub fn retain<F: Fn(&str, &mut V) -> bool>(&mut self, f: &F)
+        requires forall|k: &str, v: &mut V| #[trigger] f.requires((k, v)),
+        ensures
+            forall|key: (Seq<char>, Seq<char>)| #[trigger] final(self).tmap2().contains_key(key) ==> old(self).tmap2().contains_key(key) && exists|k: &str, v: &mut V| k@ == key.1 && *v == old(self).tmap2()[key] && *final(v) == final(self).tmap2()[key] && #[trigger] f.ensures((k, v), true),
+            forall|key: (Seq<char>, Seq<char>)| old(self).tmap2().contains_key(key) && !#[trigger] final(self).tmap2().contains_key(key) ==> exists|k: &str, v: &mut V| k@ == key.1 && *v == old(self).tmap2()[key] && #[trigger] f.ensures((k, v), false),
+    { unimplemented!() }
+    #[verifier::external_body]
+    pub fn is_empty(&self) -> (r: bool) ensures r == (self.tmap2().len() == 0) { unimplemented!() }
+    #[verifier::external_body]
+    pub fn len(&self) -> (r: usize) ensures r == self.tmap2().len() { unimplemented!() }
+}
+//@@ item src/router/request_matcher/path_and_query.rs :: struct PathAndQueryMatcher
+pub type IdMap<T> = HashMap<String, RouteRef<T>>;
+impl<T> PathAndQueryMatcher<T> {
+    pub open spec fn in_static(&self, x: RouteRef<T>) -> bool { exists|p: String, i: String| self.static_rules@.contains_key(p) && #[trigger] self.static_rules@[p]@.contains_key(i) && self.static_rules@[p]@[i] == x }
+    pub open spec fn in_tree(&self, x: RouteRef<T>) -> bool { exists|key: (Seq<char>, Seq<char>)| #[trigger] self.regex_tree_rule.tmap2().contains_key(key) && self.regex_tree_rule.tmap2()[key] == x }
+    pub open spec fn sholds(&self, x: RouteRef<T>) -> bool { self.in_static(x) || self.in_tree(x) }
+    pub open spec fn counted(&self) -> bool { exists|s: Set<RouteRef<T>>| #[trigger] s.len() <= self.count && forall|x: RouteRef<T>| s.contains(x) <==> self.sholds(x) }
+    pub open spec fn swf(&self) -> bool {
+        &&& self.counted()
+        &&& forall|x: RouteRef<T>, y: RouteRef<T>| #[trigger] self.sholds(x) && #[trigger] self.sholds(y) && rid(*x) == rid(*y) ==> x == y
+        // a route is stored under its own id, in the bucket of its own path (static) or under its own pattern (dynamic)
+        &&& forall|p: String, i: String| self.static_rules@.contains_key(p) && #[trigger] self.static_rules@[p]@.contains_key(i) ==> rid(*self.static_rules@[p]@[i]) == i@ && rpath(*self.static_rules@[p]@[i]) == PathKey::Static(p@)
+        &&& forall|key: (Seq<char>, Seq<char>)| #[trigger] self.regex_tree_rule.tmap2().contains_key(key) ==> rid(*self.regex_tree_rule.tmap2()[key]) == key.1 && rpath(*self.regex_tree_rule.tmap2()[key]) == PathKey::Dynamic(key.0)
+    }
+}
+impl<T> Store<T> for PathAndQueryMatcher<T> {
+    open spec fn holds(&self, x: RouteRef<T>) -> bool { self.sholds(x) }
+    open spec fn cnt(&self) -> nat { self.count as nat }
+    open spec fn wf(&self) -> bool { self.swf() }
+}
+pub proof fn lemma_pq_uniq_bridge<T>(n: PathAndQueryMatcher<T>)
+    requires uniq(n),
+    ensures forall|x: RouteRef<T>, y: RouteRef<T>| #[trigger] n.sholds(x) && #[trigger] n.sholds(y) && rid(*x) == rid(*y) ==> x == y,
+{
+    assert forall|x: RouteRef<T>, y: RouteRef<T>| #[trigger] n.sholds(x) && #[trigger] n.sholds(y) && rid(*x) == rid(*y) implies x == y by { assert(n.holds(x) && n.holds(y)); }
+}
+pub proof fn lemma_pq_wf<T>(s: PathAndQueryMatcher<T>)
+    requires s.wf(),
+    ensures uniq(s), s.cnt() == 0 ==> forall|x: RouteRef<T>| !s.holds(x), s.cnt() <= usize::MAX,
+{
+    let w = choose|w: Set<RouteRef<T>>| #[trigger] w.len() <= s.count && forall|x: RouteRef<T>| w.contains(x) <==> s.sholds(x);
+    if s.count == 0 { assert forall|x: RouteRef<T>| !s.holds(x) by { if s.sholds(x) { assert(w.contains(x)); assert(w.len() > 0) by { if w.len() == 0 { assert(w =~= Set::<RouteRef<T>>::empty()); } } } } }
+}
+pub proof fn lemma_pq_counted_insert<T>(o: PathAndQueryMatcher<T>, n: PathAndQueryMatcher<T>, rt: RouteRef<T>)
+    requires o.counted(), n.count == o.count + 1, forall|x: RouteRef<T>| #![trigger n.sholds(x)] n.sholds(x) <==> o.sholds(x) || x == rt,
+    ensures n.counted(),
+{
+    let w = choose|w: Set<RouteRef<T>>| #[trigger] w.len() <= o.count && forall|x: RouteRef<T>| w.contains(x) <==> o.sholds(x);
+    let w2 = w.insert(rt);
+    assert(w2.len() <= n.count && forall|x: RouteRef<T>| w2.contains(x) <==> n.sholds(x));
+}
+pub proof fn lemma_pq_counted_sub<T>(o: PathAndQueryMatcher<T>, n: PathAndQueryMatcher<T>, dec: bool)
+    requires o.counted(), forall|x: RouteRef<T>| #[trigger] n.sholds(x) ==> o.sholds(x),
+        !dec ==> n.count == o.count,
+        dec ==> n.count + 1 == o.count && exists|x0: RouteRef<T>| o.sholds(x0) && !n.sholds(x0),
+    ensures n.counted(),
+{
+    let w = choose|w: Set<RouteRef<T>>| #[trigger] w.len() <= o.count && forall|x: RouteRef<T>| w.contains(x) <==> o.sholds(x);
+    let w2 = w.filter(|x: RouteRef<T>| n.sholds(x));
+    w.lemma_len_filter(|x: RouteRef<T>| n.sholds(x));
+    assert forall|x: RouteRef<T>| w2.contains(x) <==> n.sholds(x) by {}
+    if dec {
+        let x0 = choose|x0: RouteRef<T>| o.sholds(x0) && !n.sholds(x0);
+        assert(w.contains(x0) && !w2.contains(x0));
+        assert(w2.subset_of(w.remove(x0)));
+        vstd::set_lib::lemma_len_subset(w2, w.remove(x0));
+    }
+    assert(w2.len() <= n.count);
+}
+
+pub proof fn lemma_pq_inserted<T>(o: PathAndQueryMatcher<T>, n: PathAndQueryMatcher<T>, rt: RouteRef<T>)
+    requires o.wf(), forall|x: RouteRef<T>| o.holds(x) ==> rid(*x) != rid(*rt), n.count == o.count + 1,
+        forall|x: RouteRef<T>| #![trigger n.sholds(x)] n.sholds(x) <==> o.sholds(x) || x == rt,
+        forall|p: String, i: String| n.static_rules@.contains_key(p) && #[trigger] n.static_rules@[p]@.contains_key(i) ==> rid(*n.static_rules@[p]@[i]) == i@ && rpath(*n.static_rules@[p]@[i]) == PathKey::Static(p@),
+        forall|key: (Seq<char>, Seq<char>)| #[trigger] n.regex_tree_rule.tmap2().contains_key(key) ==> rid(*n.regex_tree_rule.tmap2()[key]) == key.1 && rpath(*n.regex_tree_rule.tmap2()[key]) == PathKey::Dynamic(key.0),
+    ensures inserted_rel(o, n, rt),
+{
+    lemma_pq_counted_insert(o, n, rt);
+    assert forall|x: RouteRef<T>| #![trigger n.holds(x)] #![trigger o.holds(x)] n.holds(x) <==> o.holds(x) || x == rt by {}
+    lemma_uniq_inserted(o, n, rt); lemma_pq_uniq_bridge(n);
+}
+
+#[verifier::external_body]
+pub broadcast proof fn axiom_set_borrow_str(m: Set<String>, k: &str)
+    ensures #[trigger] set_contains_borrowed_key::<String, str>(m, k) == ids_has(m, k@),
+{}
+pub open spec fn kept_bucket<T>(m0: Map<String, RouteRef<T>>, m1: Map<String, RouteRef<T>>, ids: Set<String>) -> bool {
+    (forall|i: String| #[trigger] m1.contains_key(i) <==> m0.contains_key(i) && !ids.contains(i)) && (forall|i: String| #[trigger] m1.contains_key(i) ==> m1[i] == m0[i])
+}
+pub open spec fn dropped_bucket<T>(m0: Map<String, RouteRef<T>>, m1: Map<String, RouteRef<T>>, ids: Set<String>) -> bool { kept_bucket(m0, m1, ids) && m1.len() == 0 }
+pub open spec fn static_has<T>(s: Map<String, IdMap<T>>, p: String, i: String, x: RouteRef<T>) -> bool { s.contains_key(p) && s[p]@.contains_key(i) && s[p]@[i] == x }
+// R8 outline, ASSUMED contract (closure assigning a captured local): the statement
+//     self.static_rules.retain(|_, matcher| { if removed.is_some() { return true; } removed = matcher.remove(id); !matcher.is_empty() });
+// removes the entry with that id from the first path bucket that has one (and drops the bucket if it becomes empty); everything else is unchanged
+#[verifier::external_body]
+pub fn outl_static_retain_remove<T>(m: &mut HashMap<String, IdMap<T>>, id: &str, removed: &mut Option<RouteRef<T>>)
+    requires *old(removed) is None,
+    ensures match *final(removed) {
+        Some(x) => exists|p0: String, i0: String| i0@ == id@ && #[trigger] static_has(old(m)@, p0, i0, x)
+            && forall|p: String, i: String, y: RouteRef<T>| #[trigger] static_has(final(m)@, p, i, y) <==> static_has(old(m)@, p, i, y) && !(p == p0 && i == i0),
+        None => (forall|p: String, i: String, y: RouteRef<T>| #[trigger] static_has(final(m)@, p, i, y) <==> static_has(old(m)@, p, i, y))
+            && forall|p: String, i: String| old(m)@.contains_key(p) && #[trigger] old(m)@[p]@.contains_key(i) ==> i@ != id@,
+    },
+{
+    /* verbatim: self.static_rules.retain(|_, matcher| { if removed.is_some() { return true; } removed = matcher.remove(id); !matcher.is_empty() }); */
+    unimplemented!()
+}
+pub proof fn lemma_pq_sub<T>(o: PathAndQueryMatcher<T>, n: PathAndQueryMatcher<T>)
+    requires o.wf(),
+        forall|p: String, i: String, y: RouteRef<T>| #[trigger] static_has(n.static_rules@, p, i, y) ==> static_has(o.static_rules@, p, i, y),
+        forall|key: (Seq<char>, Seq<char>)| #[trigger] n.regex_tree_rule.tmap2().contains_key(key) ==> o.regex_tree_rule.tmap2().contains_key(key) && o.regex_tree_rule.tmap2()[key] == n.regex_tree_rule.tmap2()[key],
+    ensures forall|x: RouteRef<T>| #[trigger] n.sholds(x) ==> o.sholds(x),
+        forall|p: String, i: String| n.static_rules@.contains_key(p) && #[trigger] n.static_rules@[p]@.contains_key(i) ==> rid(*n.static_rules@[p]@[i]) == i@ && rpath(*n.static_rules@[p]@[i]) == PathKey::Static(p@),
+        forall|key: (Seq<char>, Seq<char>)| #[trigger] n.regex_tree_rule.tmap2().contains_key(key) ==> rid(*n.regex_tree_rule.tmap2()[key]) == key.1 && rpath(*n.regex_tree_rule.tmap2()[key]) == PathKey::Dynamic(key.0),
+{
+    assert forall|x: RouteRef<T>| #[trigger] n.sholds(x) implies o.sholds(x) by {
+        if n.in_static(x) { let (p, i) = choose|p: String, i: String| n.static_rules@.contains_key(p) && #[trigger] n.static_rules@[p]@.contains_key(i) && n.static_rules@[p]@[i] == x; assert(static_has(n.static_rules@, p, i, x)); assert(static_has(o.static_rules@, p, i, x)); assert(o.in_static(x)); }
+        if n.in_tree(x) { let key = choose|key: (Seq<char>, Seq<char>)| #[trigger] n.regex_tree_rule.tmap2().contains_key(key) && n.regex_tree_rule.tmap2()[key] == x; assert(o.regex_tree_rule.tmap2().contains_key(key)); assert(o.in_tree(x)); }
+    }
+    assert forall|p: String, i: String| n.static_rules@.contains_key(p) && #[trigger] n.static_rules@[p]@.contains_key(i) implies rid(*n.static_rules@[p]@[i]) == i@ && rpath(*n.static_rules@[p]@[i]) == PathKey::Static(p@) by {
+        assert(static_has(n.static_rules@, p, i, n.static_rules@[p]@[i])); assert(static_has(o.static_rules@, p, i, n.static_rules@[p]@[i]));
+    }
+}
+pub proof fn lemma_pq_removed<T>(o: PathAndQueryMatcher<T>, n: PathAndQueryMatcher<T>, id: Seq<char>, r: Option<RouteRef<T>>)
+    requires o.wf(), n.count + (if r is Some { 1int } else { 0int }) == o.count,
+        forall|x: RouteRef<T>| #![trigger n.sholds(x)] n.sholds(x) <==> o.sholds(x) && rid(*x) != id,
+        r matches Some(x) ==> o.sholds(x) && rid(*x) == id, r is None ==> forall|y: RouteRef<T>| #[trigger] o.sholds(y) ==> rid(*y) != id,
+        forall|p: String, i: String| n.static_rules@.contains_key(p) && #[trigger] n.static_rules@[p]@.contains_key(i) ==> rid(*n.static_rules@[p]@[i]) == i@ && rpath(*n.static_rules@[p]@[i]) == PathKey::Static(p@),
+        forall|key: (Seq<char>, Seq<char>)| #[trigger] n.regex_tree_rule.tmap2().contains_key(key) ==> rid(*n.regex_tree_rule.tmap2()[key]) == key.1 && rpath(*n.regex_tree_rule.tmap2()[key]) == PathKey::Dynamic(key.0),
+    ensures removed_rel(o, n, id, r),
+{
+    assert forall|y: RouteRef<T>| #![trigger n.holds(y)] #![trigger o.holds(y)] n.holds(y) <==> o.holds(y) && rid(*y) != id by {}
+    if r is Some { let x = r.unwrap(); assert(o.holds(x)); assert(o.sholds(x) && !n.sholds(x)); }
+    else { assert forall|y: RouteRef<T>| #[trigger] o.holds(y) implies rid(*y) != id by { assert(o.sholds(y)); } }
+    lemma_uniq_subset(o, n); lemma_pq_uniq_bridge(n);
+    lemma_pq_counted_sub(o, n, r is Some);
+}
+
+pub proof fn lemma_pq_batched<T>(o: PathAndQueryMatcher<T>, n: PathAndQueryMatcher<T>, ids: Set<String>)
+    requires o.wf(), n.count == o.count,
+        forall|x: RouteRef<T>| #![trigger n.sholds(x)] n.sholds(x) <==> o.sholds(x) && !ids_has(ids, rid(*x)),
+        forall|p: String, i: String| n.static_rules@.contains_key(p) && #[trigger] n.static_rules@[p]@.contains_key(i) ==> rid(*n.static_rules@[p]@[i]) == i@ && rpath(*n.static_rules@[p]@[i]) == PathKey::Static(p@),
+        forall|key: (Seq<char>, Seq<char>)| #[trigger] n.regex_tree_rule.tmap2().contains_key(key) ==> rid(*n.regex_tree_rule.tmap2()[key]) == key.1 && rpath(*n.regex_tree_rule.tmap2()[key]) == PathKey::Dynamic(key.0),
+    ensures batched_rel(o, n, ids),
+{
+    assert forall|y: RouteRef<T>| #![trigger n.holds(y)] #![trigger o.holds(y)] n.holds(y) <==> o.holds(y) && !ids_has(ids, rid(*y)) by {}
+    lemma_uniq_subset(o, n); lemma_pq_uniq_bridge(n);
+    lemma_pq_counted_sub(o, n, false);
+}
+impl<T> PathAndQueryMatcher<T> {
+    //@@ fn src/router/request_matcher/path_and_query.rs :: impl <T>PathAndQueryMatcher<T> / fn new -> r
+    //@| ensures r.wf(), r.cnt() == 0, forall|x: RouteRef<T>| !r.holds(x),
+    //@| entry broadcast use group_hash_axioms; broadcast use axiom_string_key_model;
+    //@| exit proof { let w = Set::<RouteRef<T>>::empty(); assert(w.len() <= vf_ret.count && forall|x: RouteRef<T>| w.contains(x) <==> vf_ret.sholds(x)); }
+
+    //@@ fn src/router/request_matcher/path_and_query.rs :: impl <T>PathAndQueryMatcher<T> / fn insert
+    //@| requires old(self).wf(), old(self).cnt() < usize::MAX, forall|x: RouteRef<T>| old(self).holds(x) ==> rid(*x) != rid(*route),
+    //@| ensures inserted_rel(*old(self), *final(self), route),
+    //@| entry broadcast use group_hash_axioms; broadcast use axiom_string_key_model; broadcast use axiom_borrow_string_upd; broadcast use axiom_arc_cloned;
+    //@|     let ghost s0 = self.static_rules@; let ghost t0 = self.regex_tree_rule.tmap2(); let ghost rt = route;
+    //@|     proof { axiom_string_ext(); }
+    //@| exit proof {
+    //@|     let s2 = self.static_rules@; let t2 = self.regex_tree_rule.tmap2();
+    //@|     match rpath_of(rt) {
+    //@|         PathKey::Static(pp) => {
+    //@|             let p = choose|p: String| p@ == pp && s2.contains_key(p); let i = choose|i: String| i@ == rid_of(rt) && s2[p]@.contains_key(i) && s2[p]@[i] == rt;
+    //@|             assert(t2 == t0);
+    //@|             assert forall|x: RouteRef<T>| #![trigger self.sholds(x)] self.sholds(x) <==> old(self).sholds(x) || x == rt by {
+    //@|                 if self.in_static(x) && x != rt { let (p2, i2) = choose|p2: String, i2: String| s2.contains_key(p2) && #[trigger] s2[p2]@.contains_key(i2) && s2[p2]@[i2] == x; if p2 == p { assert(i2 != i); assert(s0.contains_key(p) && s0[p]@.contains_key(i2) && s0[p]@[i2] == x); } else { assert(s0.contains_key(p2) && s0[p2] == s2[p2]); } assert(old(self).in_static(x)); }
+    //@|                 if old(self).in_static(x) { let (p2, i2) = choose|p2: String, i2: String| s0.contains_key(p2) && #[trigger] s0[p2]@.contains_key(i2) && s0[p2]@[i2] == x; assert(old(self).sholds(x)); assert(old(self).holds(x)); assert(rid(*x) == i2@); assert(i2 != i); assert(s2.contains_key(p2) && s2[p2]@.contains_key(i2) && s2[p2]@[i2] == x); }
+    //@|                 if x == rt { assert(s2.contains_key(p) && s2[p]@.contains_key(i) && s2[p]@[i] == x); }
+    //@|                 if self.in_tree(x) { assert(old(self).in_tree(x)); } if old(self).in_tree(x) { assert(self.in_tree(x)); }
+    //@|             }
+    //@|             assert forall|p2: String, i2: String| s2.contains_key(p2) && #[trigger] s2[p2]@.contains_key(i2) implies rid(*s2[p2]@[i2]) == i2@ && rpath(*s2[p2]@[i2]) == PathKey::Static(p2@) by {
+    //@|                 if p2 == p { if i2 != i { assert(s0.contains_key(p) && s0[p]@.contains_key(i2) && s0[p]@[i2] == s2[p]@[i2]); } } else { assert(s0.contains_key(p2) && s0[p2] == s2[p2]); }
+    //@|             }
+    //@|         },
+    //@|         PathKey::Dynamic(pat) => {
+    //@|             let key = (pat, rid_of(rt));
+    //@|             assert(s2 == s0 && t2 == t0.insert(key, rt));
+    //@|             assert(!t0.contains_key(key)) by { if t0.contains_key(key) { assert(old(self).in_tree(t0[key])); assert(old(self).sholds(t0[key])); assert(old(self).holds(t0[key])); } }
+    //@|             assert forall|x: RouteRef<T>| #![trigger self.sholds(x)] self.sholds(x) <==> old(self).sholds(x) || x == rt by {
+    //@|                 if self.in_tree(x) && x != rt { let k2 = choose|k2: (Seq<char>, Seq<char>)| #[trigger] t2.contains_key(k2) && t2[k2] == x; assert(k2 != key); assert(t0.contains_key(k2) && t0[k2] == x); assert(old(self).in_tree(x)); }
+    //@|                 if old(self).in_tree(x) { let k2 = choose|k2: (Seq<char>, Seq<char>)| #[trigger] t0.contains_key(k2) && t0[k2] == x; assert(k2 != key); assert(t2.contains_key(k2) && t2[k2] == x); }
+    //@|                 if x == rt { assert(t2.contains_key(key) && t2[key] == x); }
+    //@|                 if self.in_static(x) { assert(old(self).in_static(x)); } if old(self).in_static(x) { assert(self.in_static(x)); }
+    //@|             }
+    //@|             assert forall|k2: (Seq<char>, Seq<char>)| #[trigger] t2.contains_key(k2) implies rid(*t2[k2]) == k2.1 && rpath(*t2[k2]) == PathKey::Dynamic(k2.0) by { if k2 != key { assert(t0.contains_key(k2)); } }
+    //@|         },
+    //@|     }
+    //@|     lemma_pq_inserted(*old(self), *self, rt);
+    //@| }
+
+    //@@ fn src/router/request_matcher/path_and_query.rs :: impl <T>PathAndQueryMatcher<T> / fn remove -> r
+    //@| requires old(self).wf(),
+    //@| ensures removed_rel(*old(self), *final(self), id@, r),
+    //@| outline `self.static_rules.retain(|_, matcher| { if removed.is_some() { return true; } removed = matcher.remove(id); !matcher.is_empty() });` => `outl_static_retain_remove(&mut self.static_rules, id, &mut removed);`
+    //@| entry broadcast use group_hash_axioms; broadcast use axiom_string_key_model;
+    //@|     let ghost s0 = self.static_rules@; let ghost t0 = self.regex_tree_rule.tmap2();
+    //@|     proof { axiom_string_ext(); lemma_pq_wf(*self); }
+    //@| before `self.count -= 1;`#0: proof {
+    //@|     let pp = choose|pp: Seq<char>| #[trigger] t0.contains_key((pp, id@)) && t0[(pp, id@)] == route && self.regex_tree_rule.tmap2() == t0.remove((pp, id@));
+    //@|     assert(old(self).in_tree(route)); assert(old(self).sholds(route)); assert(old(self).holds(route));
+    //@| }
+    //@| before `return Some(route);`: proof {
+    //@|     let pp = choose|pp: Seq<char>| #[trigger] t0.contains_key((pp, id@)) && t0[(pp, id@)] == route && self.regex_tree_rule.tmap2() == t0.remove((pp, id@));
+    //@|     let key = (pp, id@); let t2 = self.regex_tree_rule.tmap2();
+    //@|     assert forall|p: String, i: String, y: RouteRef<T>| #[trigger] static_has(self.static_rules@, p, i, y) implies static_has(s0, p, i, y) by {}
+    //@|     lemma_pq_sub(*old(self), *self);
+    //@|     assert forall|x: RouteRef<T>| #![trigger self.sholds(x)] self.sholds(x) <==> old(self).sholds(x) && rid(*x) != id@ by {
+    //@|         if old(self).sholds(x) && rid(*x) == id@ { assert(old(self).sholds(route)); assert(x == route); }
+    //@|         if old(self).in_tree(x) && x != route { let k2 = choose|k2: (Seq<char>, Seq<char>)| #[trigger] t0.contains_key(k2) && t0[k2] == x; assert(k2 != key); assert(t2.contains_key(k2) && t2[k2] == x); assert(self.in_tree(x)); }
+    //@|         if old(self).in_static(x) { assert(self.in_static(x)); }
+    //@|         if self.in_tree(x) { let k2 = choose|k2: (Seq<char>, Seq<char>)| #[trigger] t2.contains_key(k2) && t2[k2] == x; assert(k2 != key); assert(rid(*x) == k2.1); if rid(*x) == id@ { assert(old(self).sholds(x) && old(self).sholds(route)); } }
+    //@|         if self.in_static(x) && rid(*x) == id@ { assert(old(self).sholds(x) && old(self).sholds(route)); assert(x == route); let (p, i) = choose|p: String, i: String| s0.contains_key(p) && #[trigger] s0[p]@.contains_key(i) && s0[p]@[i] == x; assert(rpath(*x) == PathKey::Static(p@)); assert(rpath(*route) == PathKey::Dynamic(pp)); }
+    //@|     }
+    //@|     lemma_pq_removed(*old(self), *self, id@, Some(route));
+    //@| }
+    //@| before `if removed.is_some() {`#1: proof {
+    //@|     assert(self.regex_tree_rule.tmap2() == t0);
+    //@|     if removed is Some { let x = removed.unwrap(); let (p0, i0) = choose|p0: String, i0: String| i0@ == id@ && #[trigger] static_has(s0, p0, i0, x) && forall|p: String, i: String, y: RouteRef<T>| #[trigger] static_has(self.static_rules@, p, i, y) <==> static_has(s0, p, i, y) && !(p == p0 && i == i0); assert(old(self).in_static(x)); assert(old(self).sholds(x)); assert(old(self).holds(x)); }
+    //@| }
+    //@| exit proof {
+    //@|     let s2 = self.static_rules@;
+    //@|     assert forall|p: String, i: String, y: RouteRef<T>| #[trigger] static_has(s2, p, i, y) implies static_has(s0, p, i, y) by {}
+    //@|     lemma_pq_sub(*old(self), *self);
+    //@|     assert forall|x: RouteRef<T>| #![trigger self.sholds(x)] self.sholds(x) <==> old(self).sholds(x) && rid(*x) != id@ by {
+    //@|         if self.in_tree(x) { assert(old(self).in_tree(x)); let k2 = choose|k2: (Seq<char>, Seq<char>)| #[trigger] t0.contains_key(k2) && t0[k2] == x; assert(rid(*x) == k2.1); assert(!t0.contains_key((k2.0, id@))); }
+    //@|         if old(self).in_tree(x) { assert(self.in_tree(x)); let k2 = choose|k2: (Seq<char>, Seq<char>)| #[trigger] t0.contains_key(k2) && t0[k2] == x; assert(rid(*x) == k2.1); assert(!t0.contains_key((k2.0, id@))); }
+    //@|         if self.in_static(x) { let (p, i) = choose|p: String, i: String| s2.contains_key(p) && #[trigger] s2[p]@.contains_key(i) && s2[p]@[i] == x; assert(static_has(s2, p, i, x)); assert(static_has(s0, p, i, x)); assert(rid(*x) == i@);
+    //@|             if removed is Some { let x0 = removed.unwrap(); let (p0, i0) = choose|p0: String, i0: String| i0@ == id@ && #[trigger] static_has(s0, p0, i0, x0) && forall|p: String, i: String, y: RouteRef<T>| #[trigger] static_has(s2, p, i, y) <==> static_has(s0, p, i, y) && !(p == p0 && i == i0);
+    //@|                 if i@ == id@ { assert(i == i0); assert(old(self).in_static(x) && old(self).in_static(x0)); assert(old(self).sholds(x) && old(self).sholds(x0)); assert(x == x0); assert(rpath(*x) == PathKey::Static(p@) && rpath(*x0) == PathKey::Static(p0@)); assert(p == p0); } } }
+    //@|         if old(self).in_static(x) && rid(*x) != id@ { let (p, i) = choose|p: String, i: String| s0.contains_key(p) && #[trigger] s0[p]@.contains_key(i) && s0[p]@[i] == x; assert(static_has(s0, p, i, x)); assert(i@ != id@); assert(static_has(s2, p, i, x)); assert(self.in_static(x)); }
+    //@|     }
+    //@|     if removed is None { assert forall|y: RouteRef<T>| #[trigger] old(self).sholds(y) implies rid(*y) != id@ by {
+    //@|         if old(self).in_tree(y) { let k2 = choose|k2: (Seq<char>, Seq<char>)| #[trigger] t0.contains_key(k2) && t0[k2] == y; assert(!t0.contains_key((k2.0, id@))); }
+    //@|         if old(self).in_static(y) { let (p, i) = choose|p: String, i: String| s0.contains_key(p) && #[trigger] s0[p]@.contains_key(i) && s0[p]@[i] == y; assert(rid(*y) == i@); } } }
+    //@|     lemma_pq_removed(*old(self), *self, id@, removed);
+    //@| }
+
+    //@@ fn src/router/request_matcher/path_and_query.rs :: impl <T>PathAndQueryMatcher<T> / fn batch_remove -> r
+    //@| requires old(self).wf(),
+    //@| ensures batched_rel(*old(self), *final(self), ids@),
+    //@| closure `|_, matcher|` => `|_k: &String, matcher: &mut IdMap<T>| -> (b: bool) ensures kept_bucket(old(matcher)@, final(matcher)@, ids@), !b ==> dropped_bucket(old(matcher)@, final(matcher)@, ids@)`
+    //@| closure `|id, _|`#0 => `|id: &String, _v: &mut RouteRef<T>| -> (b: bool) ensures b == !ids@.contains(*id), *final(_v) == *old(_v)`
+    //@| closure `|id, _|`#1 => `|id: &str, _v: &mut RouteRef<T>| -> (b: bool) ensures b == !ids_has(ids@, id@), *final(_v) == *old(_v)`
+    //@| entry broadcast use group_hash_axioms; broadcast use axiom_string_key_model; broadcast use axiom_set_borrow_str;
+    //@|     let ghost s0 = self.static_rules@; let ghost t0 = self.regex_tree_rule.tmap2();
+    //@|     proof { axiom_string_ext(); }
+    //@| exit proof {
+    //@|     let s2 = self.static_rules@; let t2 = self.regex_tree_rule.tmap2();
+    //@|     assert forall|p: String, i: String, y: RouteRef<T>| #[trigger] static_has(s2, p, i, y) <==> static_has(s0, p, i, y) && !ids@.contains(i) by {
+    //@|         if static_has(s0, p, i, y) && !ids@.contains(i) && !s2.contains_key(p) {
+    //@|             // the bucket was dropped although the predicate kept entry i: impossible (a dropped bucket is empty)
+    //@|             let fm = choose|fm: Map<String, RouteRef<T>>| #[trigger] dropped_bucket(s0[p]@, fm, ids@);
+    //@|             assert(fm.contains_key(i)); assert(fm.dom().contains(i)); assert(fm.dom().len() > 0) by { if fm.dom().len() == 0 { assert(fm.dom() =~= Set::<String>::empty()); } }
+    //@|         }
+    //@|     }
+    //@|     assert forall|p: String, i: String, y: RouteRef<T>| #[trigger] static_has(s2, p, i, y) implies static_has(s0, p, i, y) by {}
+    //@|     lemma_pq_sub(*old(self), *self);
+    //@|     assert forall|x: RouteRef<T>| #![trigger self.sholds(x)] self.sholds(x) <==> old(self).sholds(x) && !ids_has(ids@, rid(*x)) by {
+    //@|         if self.in_static(x) { let (p, i) = choose|p: String, i: String| s2.contains_key(p) && #[trigger] s2[p]@.contains_key(i) && s2[p]@[i] == x; assert(static_has(s2, p, i, x)); assert(static_has(s0, p, i, x) && !ids@.contains(i)); assert(old(self).in_static(x)); assert(rid(*x) == i@);
+    //@|             if ids_has(ids@, rid(*x)) { let k = choose|k: String| k@ == rid(*x) && ids@.contains(k); assert(k == i); } }
+    //@|         if old(self).in_static(x) && !ids_has(ids@, rid(*x)) { let (p, i) = choose|p: String, i: String| s0.contains_key(p) && #[trigger] s0[p]@.contains_key(i) && s0[p]@[i] == x; assert(static_has(s0, p, i, x)); assert(rid(*x) == i@); assert(!ids@.contains(i)); assert(static_has(s2, p, i, x)); assert(self.in_static(x)); }
+    //@|         if self.in_tree(x) { let k2 = choose|k2: (Seq<char>, Seq<char>)| #[trigger] t2.contains_key(k2) && t2[k2] == x; assert(t0.contains_key(k2) && t0[k2] == x); assert(old(self).in_tree(x)); assert(rid(*x) == k2.1); }
+    //@|         if old(self).in_tree(x) && !ids_has(ids@, rid(*x)) { let k2 = choose|k2: (Seq<char>, Seq<char>)| #[trigger] t0.contains_key(k2) && t0[k2] == x; assert(rid(*x) == k2.1); assert(t2.contains_key(k2) && t2[k2] == x); assert(self.in_tree(x)); }
+    //@|     }
+    //@|     lemma_pq_batched(*old(self), *self, ids@);
+    //@| }
+
+    //@@ fn src/router/request_matcher/path_and_query.rs :: impl <T>PathAndQueryMatcher<T> / fn len -> r
+    //@| ensures r == self.cnt(),
+    //@@ fn src/router/request_matcher/path_and_query.rs :: impl <T>PathAndQueryMatcher<T> / fn is_empty -> r
+    //@| ensures r == (self.cnt() == 0),
+}
 
 // ================================================================ Router (src/router/mod.rs)
 //@@ rename SchemeMatcher Sub
